@@ -53,3 +53,56 @@ func VH_C18_string_roundtrip() {
 	verifAssertStrEq(got, s, "C18: ReadString(WriteString(s)) == s (over-long strings must be rejected, not mis-framed)")
 	verifAssert(w.off == len(w.b), "C18: ReadString consumes exactly what WriteString wrote")
 }
+
+// A reader may deliver a message in pieces (a tube hands out what has arrived;
+// a TCP or pipe connection segments as it likes). ReadString must then return
+// the WHOLE string or an error - never a silently shortened one (a command
+// grant for "rm -rf /tmp/build" must not be stored as "rm -rf /").
+type c18Frag struct {
+	b    []byte
+	off  int
+	step int // at most this many bytes per Read
+}
+
+func (v *c18Frag) Read(p []byte) (int, error) {
+	if v.off >= len(v.b) {
+		return 0, io.EOF
+	}
+	q := p
+	if len(q) > v.step {
+		q = q[:v.step]
+	}
+	n := copy(q, v.b[v.off:])
+	v.off += n
+	return n, nil
+}
+
+func c18Fragmented(prop string) {
+	n := verifPick("len", 0, 1, 2, 23, 255)
+	s := verifString("s", n)
+	w := &c18Buf{b: make([]byte, 0, 512)}
+	_, err := WriteString(s, w)
+	verifAssert(err == nil, prop+": a string of at most 255 bytes is written")
+	avail := verifPick("bytes-that-arrive", 0, 1, 2, 3, 24, 256)
+	verifAssume(avail <= len(w.b))
+	r := &c18Frag{b: w.b[:avail], step: verifPick("bytes-per-read", 1, 8, 1000)}
+	got, _, err := ReadString(r)
+	if err != nil {
+		verifCover("error")
+		verifAssert(avail < len(w.b), prop+": ReadString fails only when bytes are missing")
+		return
+	}
+	verifCover("whole")
+	verifAssert(avail == len(w.b), prop+": ReadString succeeds only when the whole string has arrived")
+	verifAssertStrEq(got, s, prop+": a string read in pieces is the string written - whole, never a prefix")
+}
+
+//verif:prop C18
+//verif:bounds string length in {0,1,2,23,255} with symbolic bytes; the reader hands out at most 1, 8 or 1000 bytes per call and ends after 0,1,2,3,24 or all bytes
+//verif:cover whole;error
+func VH_C18_readstring_from_a_fragmenting_reader_is_whole_or_an_error() { c18Fragmented("C18") }
+
+//verif:prop C07
+//verif:bounds as VH_C18_readstring_from_a_fragmenting_reader_is_whole_or_an_error (the command text and user name of a grant are decoded by ReadString)
+//verif:cover whole;error
+func VH_C07_granted_command_text_is_never_stored_truncated() { c18Fragmented("C07") }
